@@ -90,7 +90,15 @@ class JaqalLexer(Lexer):
         return token
 
     def NUMBER(self, token):
-        token.value = float(token.value)
+        text = token.value
+        token.value = float(text)
+        if token.value in (float("inf"), float("-inf")):
+            raise JaqalParseError(
+                "<string>",
+                token.lineno,
+                self._compute_col(token.index),
+                f"Number {text} out of range",
+            )
         return token
 
     def BININT(self, token):
